@@ -1,6 +1,8 @@
 #!/bin/bash
 # Run a check against a PRIVATE copy of /repo (optionally patched) and a private copy of /verif, so that
-# neither /repo nor the shared build trees are touched and no global lock is needed.
+# neither /repo nor the shared build trees are touched and no global lock is needed. The private copies
+# are bind-mounted over /repo and /verif inside a private mount namespace (unshare -m), so every absolute
+# path stays the same and cargo/make only rebuild what the patch really changes.
 # usage: tools/isolated_check.sh <patch.diff|none> <property-id> [extra ./check args]
 # Output: the check's stdout; the private evidence/replay files are copied to $ISO_OUT (default
 # /verif/work/iso_<id>_<pid>/) before the private tree is deleted.
@@ -14,15 +16,13 @@ rsync -a --exclude target --exclude .git /repo/ "$D/repo/"
 if [ "$patch" != none ]; then
   (cd "$D/repo" && git apply "$patch") || { echo "patch does not apply"; rm -rf "$D"; exit 3; }
 fi
-rsync -a --exclude harness/target --exclude work --exclude .git --exclude seeded /verif/ "$D/verif/"
-# reuse compiled registry dependencies (workspace crates are rebuilt because their paths differ)
-cp -a /verif/harness/target "$D/verif/harness/target" 2>/dev/null
-sed -i "s#\"/repo/#\"$D/repo/#g" "$D/verif/harness/Cargo.toml"
-rm -f "$D/verif/coq/.build.lock" "$D/verif/.repo.lock"
-cd "$D/verif" && VERIF_REPO="$D/repo" VERIF_REPO_LOCKED=1 ./check "$pid" "$@" | sed "s#$D/verif#$OUT#g"
-rc=${PIPESTATUS[0]}
+rsync -a --exclude work --exclude .git --exclude seeded --exclude 'coq/.build.lock' --exclude '.repo.lock' /verif/ "$D/verif/"
+mkdir -p "$D/verif/work" "$D/verif/evidence/replays"
+args=("$@")
+unshare -m bash -c "mount --bind '$D/repo' /repo && mount --bind '$D/verif' /verif && cd /verif && VERIF_REPO_LOCKED=1 ./check '$pid' ${args[*]:-}"
+rc=$?
 cp -a "$D/verif/evidence/$pid.json" "$OUT/" 2>/dev/null
 cp -a "$D/verif/evidence/replays/." "$OUT/" 2>/dev/null
 rm -rf "$D"
-echo "isolated_check: exit=$rc out=$OUT"
+echo "isolated_check: exit=$rc out=$OUT (replay paths printed above refer to /verif/evidence/replays inside the private copy; the files are in $OUT)"
 exit $rc
